@@ -1239,8 +1239,13 @@ impl Drop for ReservedSession<'_> {
     fn drop(&mut self) {
         self.matter.with_state(|state| {
             if self.complete {
-                let session = unwrap!(state.sessions.get(self.id));
-                session.reserved = false;
+                // The session might be gone by now: between `complete()` and this drop the
+                // handshake still awaits the acknowledgement of its last message, and in the
+                // meantime the session can be removed together with its fabric
+                // (`remove_for_fabric`) or with all PASE sessions (`remove_pase`).
+                if let Some(session) = state.sessions.get(self.id) {
+                    session.reserved = false;
+                }
             } else {
                 state.sessions.remove(self.id);
             }
